@@ -842,6 +842,10 @@ func genHTMLDocRaw(r *core.Rand, payloads bool) string {
 	writeBody := bodyAttrs != "" || !bodyOmittable || !writeHead || r.Chance(1, 2)
 	if writeBody {
 		sb.WriteString("<body" + bodyAttrs + ">" + r.Pick([]string{"", "\n"}))
+		if r.Chance(1, 8) {
+			// an element that is also allowed in the head as the first thing in the body: the body start tag must stay
+			sb.WriteString(r.Pick([]string{g.scriptEl(), "<noscript>enable scripts</noscript>", "<link rel=\"stylesheet\" href=\"late.css\">", "<template><p>t</p></template>", "<style>p{color:#ff0000}</style>", "<meta itemprop=\"x\" content=\"y\">"}))
+		}
 	}
 	for i, k := range body.kids {
 		var nx *hNode
@@ -851,7 +855,6 @@ func genHTMLDocRaw(r *core.Rand, payloads bool) string {
 		g.write(&sb, k, body, nx)
 	}
 	if r.Chance(1, 4) && bodyOmittable {
-		// guard html-body-start-before-metadata: a script is never the first real child of the body
 		sb.WriteString(g.scriptEl())
 	}
 	if writeBody && r.Chance(2, 3) {
